@@ -37,7 +37,7 @@ ASSUMPTIONS = [
     "empty and shorter-than-header prefixes may raise; they must yield no records",
 ]
 SHARDS = {"quick": 8, "thorough": 16}
-BUDGET_S = {"quick": 200, "thorough": 1200}
+BUDGET_S = {"quick": 200, "thorough": 2400}
 ANCHORS = ["flow.record.stream:RecordStreamReader.read", "flow.record.stream:RecordStreamReader.__iter__", "flow.record.stream:RecordStreamWriter.write",
            "flow.record.packer:RecordPacker.unpack"]
 HEADER_LEN = len(refcodec.HEADER_FRAME)
